@@ -44,12 +44,15 @@ SCENARIOS = {
     # forced collision: before r1 is issued the token counter is moved to where its next value is r0's token followed by a
     # zero byte (counter values 256 apart must still give different tokens)
     "S-REQ-tokenwrap": [("r0", "NON", "S1"), "wrap", ("r1", "NON", "S1")],
+    # the application loses interest in r0 in the very step in which it issued it (before anything has been sent): whatever the
+    # server answers later on that token is a response to nothing
+    "S-REQ-earlywithdraw": [("r0", "CON", "S1", "withdraw-now"), ("r1", "CON", "S2")],
 }
 
 
 class Req:
-    def __init__(self, name, mtype, srv):
-        self.name, self.mtype, self.srv = name, mtype, srv
+    def __init__(self, name, mtype, srv, flag=None):
+        self.name, self.mtype, self.srv, self.flag = name, mtype, srv, flag
         self.obj = None
         self.done_calls = 0
         self.token = None
@@ -129,12 +132,25 @@ class MatchScenario(NetScenario):
         return bool(f)
 
     def issue(self, st, r):
+        if r.flag == "withdraw-now" and not getattr(st, "slow_resolution", False):
+            # finding the remote takes a turn of the loop (as name resolution does), so the application's change of mind is
+            # processed before the request reaches the token manager
+            st.slow_resolution = True
+            real = st.cli.ctx.find_remote_and_interface
+
+            async def slow(message):
+                await asyncio.sleep(0)
+                return await real(message)
+            st.cli.ctx.find_remote_and_interface = slow
         m = Message(code=GET, uri_path=[r.name], _mtype=CON if r.mtype == "CON" else NON)
         m.remote = st.cli.remote(SRV[r.srv])
         r.msg = m
         r.obj = st.cli.ctx.request(m, handle_blockwise=False)
         r.obj.response.add_done_callback(lambda f, r=r: setattr(r, "done_calls", r.done_calls + 1))
         r.issued_at = st.world.loop.time()
+        if r.flag == "withdraw-now":
+            r.withdrawn = True
+            r.obj.response.cancel()
 
     # -- the wire as the model sees it
     def on_wire(self, st, dg):
